@@ -8,6 +8,9 @@ import PetgraphModel.Proofs.C09Partial
 import PetgraphModel.Proofs.C09Topo
 import PetgraphModel.Proofs.C09Kosaraju
 import PetgraphModel.Proofs.C09Cond
+import PetgraphModel.Proofs.C09W2Cond
+import PetgraphModel.Proofs.C09W2Tarjan
+import PetgraphModel.Proofs.C09W2TjBig
 /-
 C09 — SCC, connectivity, cycle detection, toposort and condensation are exact.
 
@@ -238,6 +241,47 @@ def C09_tarjan_statement : Prop :=
 theorem C09_tarjan_partial (v : View) (t t' : TJ) (h : tjRun v t = some t') : ∀ c ∈ t'.out, c ≠ [] :=
   C09P.tjRun_nonempty v t t' h
 
+/-- **`TarjanScc::run` (mirror model of Pearce's variant) is exact, fresh and again on the used value**,
+and `node_component_index` is consistent with the components: `C09_tarjan_statement` under the one
+hypothesis it lacks, `2·|nodes| + 1 ≤ usize::MAX`.  The hypothesis is what the implementation itself
+relies on (`index` counts up from 1, `componentcount` down from `usize::MAX`, and a `rootindex` below
+`index` means "still on the stack"); no graph in memory can violate it.  Without it the statement is
+false — see `C09_tarjan_statement_false_witness` below.
+Proof (`Proofs/C09W2Tj*.lean`, `Proofs/C09W2Tarjan.lean`): the low-link invariant `TjInv` with the ghost entry
+numbers `num` — `rootindex` of an active node is the entry number of an active node it reaches, every
+edge of a stacked node goes to a finished component or to an active node not older than its
+`rootindex`, finished nodes are closed under edges — preserved by enter / lower / push / pop, and the
+contracts of `visit` and of its neighbour loop by mutual induction on the fuel. -/
+theorem C09_tarjan (v : View) (hv : ViewOk v) (hix : IxOk v) (hwf : v.g.WellFormed)
+    (hsize : 2 * v.g.nodes.length + 1 ≤ usizeMax) (t1 : TJ) (h1 : tjRun v {} = some t1) :
+    (SccSpec v.g t1.out ∧ IndexSpec t1.out (v.g.nodes.map fun x => (x, tjIndex v t1 x))) ∧
+    ∀ t2, tjRun v t1 = some t2 →
+      SccSpec v.g t2.out ∧ IndexSpec t2.out (v.g.nodes.map fun x => (x, tjIndex v t2 x)) :=
+  C09P.tarjan_spec v hv hix.2 hwf hsize t1 h1
+
+/-- `C09_tarjan_statement` as written (no size hypothesis) is false: on `usize::MAX + 2` isolated nodes
+`componentcount` (counting down from `usize::MAX`; the model has no wrap-around) reaches 0 and stays
+there, so the last two nodes — two different components — get the same `node_component_index`.  Not a
+defect of petgraph: such a graph cannot exist in memory (the implementation would need more than
+`usize::MAX` node slots), and the property statement speaks about graphs that do. -/
+theorem C09_tarjan_statement_false_witness : ¬ C09_tarjan_statement := by
+  intro h
+  obtain ⟨t1, h1, hbad⟩ := C09P.tarjan_unbounded_counterexample (usizeMax + 2) rfl
+  obtain ⟨hv, hix, hwf⟩ := C09P.isoView_ok (usizeMax + 2)
+  exact hbad (h _ hv hix hwf t1 h1).1.2
+
+/-- the same for ANY clean `TarjanScc` value (stack empty, `index + |nodes| ≤ componentcount ≤ usize::MAX`),
+so for any number of reuses: the components are exact and in reverse topological order, the value is
+clean again (`index` restored, stack empty, `componentcount` lowered by the number of components),
+and `node_component_index` is consistent. -/
+theorem C09_tarjan_run (v : View) (hv : ViewOk v) (hix : IxOk v) (hwf : v.g.WellFormed) (t t' : TJ)
+    (hst : t.stack = []) (hB : t.index + v.g.nodes.length ≤ t.cc) (hcc : t.cc ≤ usizeMax)
+    (h : tjRun v t = some t') :
+    SccSpec v.g t'.out ∧ IndexSpec t'.out (v.g.nodes.map fun x => (x, tjIndex v t' x)) ∧
+    t'.stack = [] ∧ t'.index = t.index ∧ t'.cc + t'.out.length = t.cc ∧ t'.out.length ≤ v.g.nodes.length := by
+  have r := C09P.tjRun_spec v hv hwf hix.2 t t' hst hB h
+  exact ⟨r.scc, C09P.tjIndex_spec r hcc, r.stack, r.index, r.cc, r.len⟩
+
 /-- `condensation(g, true)` on `Graph` (`eo` enumerates the edges in edge-index order): the condensed
 graph satisfies `CondAcyclicSpec`.  MISSING: the bookkeeping of `update_edge` on the quotient (one edge
 per joined pair of components) and acyclicity of the quotient from the order clause of `C09_kosaraju`. -/
@@ -261,6 +305,14 @@ theorem C09_condensation_acyclic_partial (v : View) (eo : List Nat) (acyc : Bool
   | cons k l ih =>
     simp only [List.filter_cons, List.filterMap_cons]
     cases v.edge? k <;> simp [ih]
+
+/-- **`condensation(g, true)` (mirror model, on `Graph`) is exact**: one node per class of mutual
+reachability, no self-loop, no parallel edge, no cycle, an edge between two components exactly when an
+original edge joins them, carrying the weight of such an edge.  Proof (`Proofs/C09W2Cond.lean`): the
+`update_edge` bookkeeping invariant `QInv` over the edge loop (an undirected graph never adds an edge),
+and every quotient edge goes from a later to an earlier component by the order clause of `C09_kosaraju`. -/
+theorem C09_condensation_acyclic : C09_condensation_acyclic_statement :=
+  fun v eo hv hp hwf heo c h => C09P.condensation_acyclic_spec v hv hp hwf eo heo c h
 
 /-! non-vacuity: the checkers accept the right answers on a graph with two non-trivial components,
 a self-loop and a parallel edge, and reject wrong ones -/
